@@ -8235,11 +8235,12 @@ type jphase =
 | JRunning
 | JDeleted
 | JDropped
+| JStored
 
 type conn = { k_rec : alloc; k_stream : bool; k_registered : bool;
               k_in_flight : bool; k_closed : bool; k_pending : nat;
               k_peer_closed : bool; k_jobs : jphase list; k_in_batch : 
-              bool; k_stale : bool; k_answered : nat; k_taken : nat list }
+              bool; k_grave : bool; k_answered : nat; k_taken : nat list }
 
 type elstate =
 | EWaiting0
@@ -8270,6 +8271,7 @@ type elabel =
 | LDel of nat
 | LStreamDrop of nat
 | LClosedStore of nat
+| LGrave of nat
 
 (** val ready : conn -> bool **)
 
@@ -8303,7 +8305,7 @@ let upd_jobs k js =
   { k_rec = k.k_rec; k_stream = k.k_stream; k_registered = k.k_registered;
     k_in_flight = k.k_in_flight; k_closed = k.k_closed; k_pending =
     k.k_pending; k_peer_closed = k.k_peer_closed; k_jobs = js; k_in_batch =
-    k.k_in_batch; k_stale = k.k_stale; k_answered = k.k_answered; k_taken =
+    k.k_in_batch; k_grave = k.k_grave; k_answered = k.k_answered; k_taken =
     k.k_taken }
 
 (** val move_job :
@@ -8349,6 +8351,15 @@ let rec move_job js p q =
         | _ ->
           (match move_job r p q with
            | Some r' -> Some (j :: r')
+           | None -> None))
+     | JStored ->
+       (match p with
+        | JStored -> Some (match q with
+                           | Some q' -> q' :: r
+                           | None -> r)
+        | _ ->
+          (match move_job r p q with
+           | Some r' -> Some (j :: r')
            | None -> None)))
 
 (** val new_conn : bool -> conn **)
@@ -8356,7 +8367,7 @@ let rec move_job js p q =
 let new_conn add_ok =
   { k_rec = (if add_ok then ALive else AFreed); k_stream = add_ok;
     k_registered = add_ok; k_in_flight = false; k_closed = false; k_pending =
-    O; k_peer_closed = false; k_jobs = []; k_in_batch = false; k_stale =
+    O; k_peer_closed = false; k_jobs = []; k_in_batch = false; k_grave =
     false; k_answered = O; k_taken = [] }
 
 (** val all_distinct : nat list -> bool **)
@@ -8377,13 +8388,13 @@ let step0 s = function
     else Some { k_rec = k.k_rec; k_stream = k.k_stream; k_registered =
            k.k_registered; k_in_flight = k.k_in_flight; k_closed =
            k.k_closed; k_pending = (S k.k_pending); k_peer_closed = false;
-           k_jobs = k.k_jobs; k_in_batch = k.k_in_batch; k_stale = k.k_stale;
+           k_jobs = k.k_jobs; k_in_batch = k.k_in_batch; k_grave = k.k_grave;
            k_answered = k.k_answered; k_taken = k.k_taken })
 | LClientClose c ->
   with_conn s c (fun k -> Some { k_rec = k.k_rec; k_stream = k.k_stream;
     k_registered = k.k_registered; k_in_flight = k.k_in_flight; k_closed =
     k.k_closed; k_pending = k.k_pending; k_peer_closed = true; k_jobs =
-    k.k_jobs; k_in_batch = k.k_in_batch; k_stale = k.k_stale; k_answered =
+    k.k_jobs; k_in_batch = k.k_in_batch; k_grave = k.k_grave; k_answered =
     k.k_answered; k_taken = k.k_taken })
 | LWait batch ->
   (match s.e_loop with
@@ -8401,7 +8412,7 @@ let step0 s = function
                      k.k_registered; k_in_flight = k.k_in_flight; k_closed =
                      k.k_closed; k_pending = k.k_pending; k_peer_closed =
                      k.k_peer_closed; k_jobs = k.k_jobs; k_in_batch = true;
-                     k_stale = k.k_stale; k_answered = k.k_answered;
+                     k_grave = k.k_grave; k_answered = k.k_answered;
                      k_taken = k.k_taken }
               else k) (combine (seq O (length s.e_conns)) s.e_conns));
             e_loop = EBatch }
@@ -8432,10 +8443,8 @@ let step0 s = function
                     k_jobs =
                     (match actual with
                      | ODispatched -> app k.k_jobs (JQueued :: [])
-                     | _ -> k.k_jobs); k_in_batch = false; k_stale =
-                    (match actual with
-                     | OStale -> true
-                     | _ -> k.k_stale); k_answered = k.k_answered; k_taken =
+                     | _ -> k.k_jobs); k_in_batch = false; k_grave =
+                    k.k_grave; k_answered = k.k_answered; k_taken =
                     k.k_taken }
                 | _ -> None)
              | ODispatched ->
@@ -8450,10 +8459,8 @@ let step0 s = function
                     k_jobs =
                     (match actual with
                      | ODispatched -> app k.k_jobs (JQueued :: [])
-                     | _ -> k.k_jobs); k_in_batch = false; k_stale =
-                    (match actual with
-                     | OStale -> true
-                     | _ -> k.k_stale); k_answered = k.k_answered; k_taken =
+                     | _ -> k.k_jobs); k_in_batch = false; k_grave =
+                    k.k_grave; k_answered = k.k_answered; k_taken =
                     k.k_taken }
                 | _ -> None)
              | OBusy ->
@@ -8468,30 +8475,30 @@ let step0 s = function
                     k_jobs =
                     (match actual with
                      | ODispatched -> app k.k_jobs (JQueued :: [])
-                     | _ -> k.k_jobs); k_in_batch = false; k_stale =
-                    (match actual with
-                     | OStale -> true
-                     | _ -> k.k_stale); k_answered = k.k_answered; k_taken =
+                     | _ -> k.k_jobs); k_in_batch = false; k_grave =
+                    k.k_grave; k_answered = k.k_answered; k_taken =
                     k.k_taken }
                 | _ -> None))))
 | LFree c ->
   (match s.e_loop with
    | EWaiting0 -> None
    | EBatch ->
-     with_conn s c (fun k ->
-       if k.k_stale
-       then Some { k_rec = AFreed; k_stream = k.k_stream; k_registered =
-              k.k_registered; k_in_flight = k.k_in_flight; k_closed =
-              k.k_closed; k_pending = k.k_pending; k_peer_closed =
-              k.k_peer_closed; k_jobs = k.k_jobs; k_in_batch = k.k_in_batch;
-              k_stale = false; k_answered = k.k_answered; k_taken =
-              k.k_taken }
-       else None))
+     if negb (forallb (fun k -> negb k.k_in_batch) s.e_conns)
+     then None
+     else with_conn s c (fun k ->
+            if k.k_grave
+            then Some { k_rec = AFreed; k_stream = k.k_stream; k_registered =
+                   k.k_registered; k_in_flight = k.k_in_flight; k_closed =
+                   k.k_closed; k_pending = k.k_pending; k_peer_closed =
+                   k.k_peer_closed; k_jobs = k.k_jobs; k_in_batch =
+                   k.k_in_batch; k_grave = false; k_answered = k.k_answered;
+                   k_taken = k.k_taken }
+            else None))
 | LBatchEnd ->
   (match s.e_loop with
    | EWaiting0 -> None
    | EBatch ->
-     if forallb (fun k -> (&&) (negb k.k_in_batch) (negb k.k_stale)) s.e_conns
+     if forallb (fun k -> negb k.k_in_batch) s.e_conns
      then Some { e_conns = s.e_conns; e_loop = EWaiting0 }
      else None)
 | LJobStart0 c ->
@@ -8505,7 +8512,7 @@ let step0 s = function
            { k_rec = k.k_rec; k_stream = k.k_stream; k_registered =
              k.k_registered; k_in_flight = k.k_in_flight; k_closed =
              k.k_closed; k_pending = p; k_peer_closed = k.k_peer_closed;
-             k_jobs = js; k_in_batch = k.k_in_batch; k_stale = k.k_stale;
+             k_jobs = js; k_in_batch = k.k_in_batch; k_grave = k.k_grave;
              k_answered = (S k.k_answered); k_taken =
              (app k.k_taken (k.k_answered :: [])) })
     | None -> None)
@@ -8516,7 +8523,7 @@ let step0 s = function
       Some { k_rec = k.k_rec; k_stream = k.k_stream; k_registered =
         k.k_registered; k_in_flight = false; k_closed = k.k_closed;
         k_pending = k.k_pending; k_peer_closed = k.k_peer_closed; k_jobs =
-        js; k_in_batch = k.k_in_batch; k_stale = k.k_stale; k_answered =
+        js; k_in_batch = k.k_in_batch; k_grave = k.k_grave; k_answered =
         k.k_answered; k_taken = k.k_taken }
     | None -> None)
 | LDel c ->
@@ -8526,7 +8533,7 @@ let step0 s = function
       Some { k_rec = k.k_rec; k_stream = k.k_stream; k_registered = false;
         k_in_flight = k.k_in_flight; k_closed = k.k_closed; k_pending =
         k.k_pending; k_peer_closed = k.k_peer_closed; k_jobs = js;
-        k_in_batch = k.k_in_batch; k_stale = k.k_stale; k_answered =
+        k_in_batch = k.k_in_batch; k_grave = k.k_grave; k_answered =
         k.k_answered; k_taken = k.k_taken }
     | None -> None)
 | LStreamDrop c ->
@@ -8536,17 +8543,27 @@ let step0 s = function
       Some { k_rec = k.k_rec; k_stream = false; k_registered =
         k.k_registered; k_in_flight = k.k_in_flight; k_closed = k.k_closed;
         k_pending = k.k_pending; k_peer_closed = k.k_peer_closed; k_jobs =
-        js; k_in_batch = k.k_in_batch; k_stale = k.k_stale; k_answered =
+        js; k_in_batch = k.k_in_batch; k_grave = k.k_grave; k_answered =
         k.k_answered; k_taken = k.k_taken }
     | None -> None)
 | LClosedStore c ->
   with_conn s c (fun k ->
-    match move_job k.k_jobs JDropped None with
+    match move_job k.k_jobs JDropped (Some JStored) with
     | Some js ->
       Some { k_rec = k.k_rec; k_stream = k.k_stream; k_registered =
         k.k_registered; k_in_flight = k.k_in_flight; k_closed = true;
         k_pending = k.k_pending; k_peer_closed = k.k_peer_closed; k_jobs =
-        js; k_in_batch = k.k_in_batch; k_stale = k.k_stale; k_answered =
+        js; k_in_batch = k.k_in_batch; k_grave = k.k_grave; k_answered =
+        k.k_answered; k_taken = k.k_taken }
+    | None -> None)
+| LGrave c ->
+  with_conn s c (fun k ->
+    match move_job k.k_jobs JStored None with
+    | Some js ->
+      Some { k_rec = k.k_rec; k_stream = k.k_stream; k_registered =
+        k.k_registered; k_in_flight = k.k_in_flight; k_closed = k.k_closed;
+        k_pending = k.k_pending; k_peer_closed = k.k_peer_closed; k_jobs =
+        js; k_in_batch = k.k_in_batch; k_grave = true; k_answered =
         k.k_answered; k_taken = k.k_taken }
     | None -> None)
 
@@ -8581,6 +8598,7 @@ let safe s = function
 | LDel c -> rec_live s c
 | LStreamDrop c -> (&&) (rec_live s c) (stream_open s c)
 | LClosedStore c -> rec_live s c
+| LGrave c -> rec_live s c
 | _ -> true
 
 type verdict =
